@@ -1,4 +1,55 @@
 # claim(pid, engine, level, technique, text, note, design_ref)
+E1_TECH = "runtime monitoring: real reconcilers + real admission webhooks + real watch handlers run in a closed loop against a simulated API server; online monitors over the committed-write log with a snapshot after every write"
+E1_NOTE = "Trusts the environment actors (Deployment/ReplicaSet/kubelet and CloneSet models), the simulated API server semantics, the re-stated inline watch predicates and the reference interpreters (route / exposure / planned) written from the documentation. Grace periods set to 0 via verif hooks."
+
+claim("C01", "E1-clustersim", "exploration", E1_TECH + "; plus exhaustive arithmetic driver over the seven BatchRelease controls (real CalculateBatchContext + UpgradeBatch, independent exposure interpreter)",
+      "Held on the explored executions: closed-loop scenarios over Deployment (canary, blue-green) and CloneSet (partition, blue-green) with scale / jump / pause events, every controller write to a workload knob judged; plus the complete domain replicas 0..120 x steps {0..122} U {0%..100%} for each control from the state the real Initialize leaves (exhaustive for that domain).",
+      E1_NOTE, "DESIGN.md §4 C01")
+claim("C02", "E1-clustersim", "exploration", E1_TECH + "; trace automaton over persisted Rollout status",
+      "Held on the explored executions: every cursor change of every run is checked for upgrade evidence (own pod count), routed report and pause discharge, or a preceding user request; writes while paused are checked.",
+      E1_NOTE, "DESIGN.md §4 C02")
+claim("C03", "E1-clustersim", "exploration", E1_TECH + "; independent route interpreter for Ingress annotations, HTTPRoute backendRefs and VirtualService routes",
+      "Held on the explored executions across ingress (nginx, aliyun-alb, higress), Gateway API, custom Lua (Istio) and ingress+gateway composite: every traffic-raising write and every routed report is checked.",
+      E1_NOTE, "DESIGN.md §4 C03")
+claim("C04", "E1-clustersim", "exploration", E1_TECH + "; the void predicate is evaluated on the snapshot after EVERY committed write of every actor, which covers every crash point of the explored histories",
+      "Held on the explored executions (success, rollback, supersession, disable, delete, scale, jump) for every provider; one known finding (jump back to step 1 after all stable pods were replaced).",
+      E1_NOTE, "DESIGN.md §4 C04")
+claim("C05", "E1-clustersim", "exploration", E1_TECH + "; residue / user-intent comparison at quiescence after the terminal state",
+      "Held on the explored executions: exit events injected at random (step, sub-state); residue set, user-owned fields and convergence checked at quiescence. One known finding (exit before the BatchRelease exists leaves the workload held).",
+      E1_NOTE, "DESIGN.md §4 C05")
+claim("C07", "E1-clustersim", "exploration", E1_TECH + "; bounded-progress + lost-wake-up detection with a recording work-queue fed only by the real handlers / Requeue / RequeueAfter / errors; plus provider fixed-point drivers and readiness-sufficiency arithmetic",
+      "Liveness restated as bounded progress: terminal state within 60*(steps+5)*(replicas+6) scheduler actions, no state with nothing enabled before terminal; every provider re-applies a done step with zero writes; the written knob always suffices for IsBatchReady on the enumerated domain.",
+      E1_NOTE + " No finite run decides 'eventually'.", "DESIGN.md §4 C07")
+claim("C08", "E2-drivers", "exploration", "runtime monitoring: real mutating webhook handlers on generated admission requests, judged by an independent decision table and a JSON-diff frame condition",
+      "Held on 20k (quick) / 500k (thorough) generated (old, new, Rollouts, ReplicaSets) situations over Deployment, CloneSet, Advanced DaemonSet, native and Advanced StatefulSet.",
+      "Trusts the decision table written from the statement (annotation reading of rollout-id, see DESIGN §6 O1); corners the statement leaves open are counted as undetermined, not judged.", "DESIGN.md §4 C08")
+claim("C09", "E1-clustersim", "exploration", E1_TECH + " with recover() around every Reconcile / watch handler / webhook Handle and fuzzed user-patchable status fields; plus the real validating handler on generated v1beta1/v1alpha1 requests with structural-promise oracles and a ControllerFinder probe",
+      "Held on the explored executions: 160 closed-loop runs with nextStepIndex fuzzing and 30k generated admission requests per quick run; no panic, promises kept on accepted objects.",
+      E1_NOTE + " Reading chosen for non-decreasing steps: adjacent steps of the same type (DESIGN §6 O3).", "DESIGN.md §4 C09")
+claim("C10", "E1-clustersim", "exploration", E1_TECH + "; order monitor from the Cancelling / supersession point over capacity-removing writes",
+      "Held on the explored executions: rollback or a v3 release injected at random (step, sub-state) for every provider; every capacity-removing write requires the gateway to send nothing to the canary Service.",
+      E1_NOTE, "DESIGN.md §4 C10")
+claim("C11", "E1-clustersim", "exploration", E1_TECH + "; BatchRelease status writes judged against an own count of live pods",
+      "Held on the explored executions: every transition into Ready, every Completed report (release + wait policy) and currentBatch <= batchPartition at every BatchRelease status write.",
+      E1_NOTE + " Reading chosen: Ready is judged at the write that enters it; staying Ready while unsatisfied is a violation after 3 consecutive status writes.", "DESIGN.md §4 C11")
+claim("C12", "E2-drivers", "exploration", "runtime monitoring: real label patcher against a write-recording client on generated pod sets, applied three times; independent per-batch budget oracle",
+      "Held on 20k (quick) / 500k (thorough) generated pod sets x plans; one known finding (garbage batch-id counted by batchLabelSatisfied).",
+      "Trusts the generator's ground truth for revisions and the oracle's reading of 'not counted'.", "DESIGN.md §4 C12")
+claim("C13", "E2-drivers", "exploration", "runtime monitoring: real Gateway API provider on generated HTTPRoutes and step sequences; request-level match evaluator, history-independence and restore oracles",
+      "Held on 3k (quick) / 100k (thorough) generated route x sequence cases.", "Trusts the CRD defaults applied by the generator and the own HTTPRoute match evaluator.", "DESIGN.md §4 C13-C15")
+claim("C14", "E2-drivers", "exploration", "runtime monitoring: real Ingress provider + the four class Lua scripts on generated Ingresses and step sequences; history-independence of canary annotations, path and restore oracles",
+      "Held on 3k (quick) / 100k (thorough) sequences over nginx, aliyun-alb, higress, mse.", "Annotation content is judged for history independence only (as the statement says).", "DESIGN.md §4 C13-C15")
+claim("C15", "E2-drivers", "exploration", "runtime monitoring: real custom network provider with built-in Istio scripts and generated well-behaved scripts on generated unstructured objects; stateless-apply and exact-restore oracles with exact number comparison",
+      "Held on 3k (quick) / 100k (thorough) cases.", "Routes with a match block are not judged for the split (the built-in script skips them by design).", "DESIGN.md §4 C13-C15")
+claim("C16", "E3-sandbox", "exploration", "runtime monitoring of the Lua sandbox: hostile corpus + grammar-generated programs run in killable child processes (CPU time via rusage, process death, recovered panics), strace syscall log between marker syscalls, walk of the reachable global environment, value round trips",
+      "Held on the executed scripts except three known findings in gopher-lua's Go-implemented string library (deadline not seen / stack overflow).",
+      "CPU-time bound 5 s for a 1 s deadline; memory and nesting bombs excluded as the property says.", "DESIGN.md §4 C16")
+claim("C17", "E2-drivers", "exploration", "runtime monitoring: the real advanced deployment reconciler in a mini closed loop against ReplicaSet-level actors; every ReplicaSet spec.replicas write judged with own ceil/clamp arithmetic",
+      "Held on 4k (quick) / 200k (thorough) histories x <= 40 actions except two known findings (new ReplicaSet lower bound of 1).",
+      "Deletion preference of a ReplicaSet modelled as unavailable-first (as the code comments assume).", "DESIGN.md §4 C17")
+claim("C18", "E1-clustersim", "fault_enumeration", E1_TECH + "; cleanup predicate evaluated at every write that removes one of the three finalizers",
+      "Held on the explored executions: deletion / disable / rollback / supersession injected at random (step, sub-state); every Rollout and BatchRelease finalizer removal checked in its snapshot.",
+      E1_NOTE + " TrafficRouting CR scenarios are not generated yet (its finalizer ordering was fixed from reading + spike).", "DESIGN.md §4 C18")
 claim("C20", "E2-drivers", "exploration",
       "runtime monitoring: real ConvertTo/ConvertFrom executed on generated objects, round-trip compared under an independent meaning normal form; panics recovered and reported",
       "Held on N generated objects per run (200k quick / 2M thorough) covering every optional block nil/present in both directions; sampling of an unbounded input language, not a proof.",
